@@ -93,13 +93,14 @@ def main(ctx):
             one = ctx.path("one.ndjson")      # same input, then TLC judges the new observation
             vlib.write_ndjson(one, [case])
             trace = ctx.path("trace.ndjson")
-            ctx.harness(["record", "C19", "--out", trace, "--n", 1, "--opt", "replay=" + one])
+            ctx.harness(["record", "C19", "--out", trace, "--n", 8, "--opt", "replay=" + one])
             validate_trace(ctx, trace, 900, None)
         else:
             cases = ctx.path("cases.ndjson")
             vlib.write_ndjson(cases, [case])
             res = ctx.path("res.ndjson")
-            ctx.harness(["replay", "C19", "--cases", cases, "--out", res])
+            # the real code iterates over Go maps: the same scenario is executed many times
+            ctx.harness(["replay", "C19", "--cases", cases, "--out", res, "--opt", "repeat=40"])
             ctx.add_results(res)
         return ctx.finish()
 
